@@ -23,10 +23,11 @@ const (
 	KOp                 // harness-level nondeterministic choice; free
 	KSelect             // which ready select case fires; free
 	KClock              // order of simultaneous timer expiries; free
+	KTimer              // eager clock: fire the earliest timer now although threads can run (alt 1 = fire; costs a preemption)
 )
 
 func (k Kind) String() string {
-	return [...]string{"thread", "env", "op", "select", "clock"}[k]
+	return [...]string{"thread", "env", "op", "select", "clock", "timer"}[k]
 }
 
 // Chooser answers choice points. preemptive is only meaningful for KThread: true when option 0
@@ -547,20 +548,26 @@ func (s *Sched) pickNext(from *Thread) *Thread {
 			}
 			return nil
 		}
-		n := len(en)
 		if clockOpt {
-			n++
+			// eager clock: a pending timer may expire now, while threads can still run
+			if s.choose(KTimer, 2, true, from) == 1 {
+				if s.abandoned {
+					return nil
+				}
+				s.fireEarliest()
+				continue
+			}
+			if s.abandoned {
+				return nil
+			}
 		}
+		n := len(en)
 		k := 0
 		if n > 1 {
 			k = s.choose(KThread, n, preemptive, from)
 			if s.abandoned {
 				return nil
 			}
-		}
-		if k == len(en) { // clock pseudo-thread
-			s.fireEarliest()
-			continue
 		}
 		return en[k]
 	}
